@@ -77,7 +77,7 @@ func familyConfig(family string, rng *rand.Rand) Scenario {
 		ExpireAfter: 2 + rng.Intn(2), RecoverTTL: 2 + rng.Intn(2), RecoverLogin: rng.Intn(2) == 0,
 		LogoutMethod: []string{"DELETE", "POST", "GET"}[rng.Intn(3)], MWReqs: rng.Intn(4),
 		MWFail: []string{"404", "401", "redirect"}[rng.Intn(3)], ErrWrites: rng.Intn(2) == 0,
-		TotpOneTime: rng.Intn(2) == 0, FoldPid: rng.Intn(3) == 0, RegNoWhitelist: rng.Intn(3) == 0}
+		TotpOneTime: rng.Intn(2) == 0, FoldPid: rng.Intn(3) == 0, RegNoWhitelist: rng.Intn(3) == 0, JSON: rng.Intn(4) == 0}
 	switch rng.Intn(3) {
 	case 1:
 		c.Whitelist = []string{"app1"}
